@@ -7,17 +7,17 @@ ROOT = os.path.dirname(os.path.dirname(os.path.abspath(__file__)))
 PROVED = {
 'C01': 'full: all widths, exponents, radixes; guard characterised (ok iff fits); Rat-valued "denotes" corollaries; wrapper reps by correspondence',
 'C02': 'full: `/ %` values and exponents, identity for all type pairs, remainder; `quotient()` exact, wide enough, error < 1 unit',
-'C03': 'full for scaled (by value / built-in rule for mixed signedness, trichotomy); elastic via C05; wide same-type via C10; wide mixed-width comparisons by value for all limb counts (after the repair); integer-vs-wrapper by correspondence',
+'C03': 'full for scaled (by value / built-in rule for mixed signedness, trichotomy); elastic via C05; wide same-type via C10; wide comparisons of different types by value for all limb counts and signednesses (after two repairs); integer-vs-wrapper by correspondence',
 'C04': 'integer conversions full (exact or truncated toward zero); radix-2 floating point: correctly rounded (nearest, ties to even, stated on exact dyadics), exact when it fits, round trip identity, float→scaled exact or truncated',
 'C05': 'full for `+ − * / %`, unary −, `<< k`, comparisons; `>> k` refuted + proved under the complementary hypothesis; elastic_scaled_integer: `scale<±k>`, `+ − * / %`, negation, comparisons exact and in range',
 'C06': 'builtin path: `+ − *` for ANY signedness/width mix; portable path: value-preserving pairs; `/`, `<<` (every count), `−x`, integer convert, float→integer convert (flag iff real value outside the range); refutations of the two open classes',
 'C07': 'totality for all operand pairs incl. mixed signedness, both paths, `<<`/`>>` for every non-negative count, float sources',
 'C08': 'full: all widths, mixed types, four modes; spec characterised and unique',
-'C09': 'scaled paths under the complements of the classes; float→int: native, neg_inf, nearest (every input) and ties-up (exact bias); float→scaled: power exactness, native, complements of three classes; the rounding_integer-rep route correctly rounded whenever 2^k fits the promoted type (one refuted class)',
+'C09': 'scaled paths under the complements of the classes; float→int: native, neg_inf, nearest (every input) and ties-up (exact bias); float→scaled: power exactness, native, complements of three classes; the rounding_integer-rep route correctly rounded whenever the instantiation compiles',
 'C10': 'full incl. Knuth completeness and Karatsuba (transcribed with scratch memory, proved exact after the repair); float conversions: from-float exact for every finite input, to-float exact when representable and faithful (two-neighbour bracket) below the overflow neighbourhood',
 'C11': 'full: per node and by induction over expression trees (`never_silently_wrong`, now with shift nodes: `<<` exact or signalled, `>>` the floor, run-time / static_integer / constant counts) outside the refuted classes; per-node theorems for every narrowest type, multi-word storage (rests on C10) and static ⊗ built-in operands; construction from floating point flags iff the real value is out of range',
 'C12': 'full for nests of any depth and order incl. exponent-changing operations (`scale_transparent`), ++/−−, documentation kernels',
-'C13': 'integers full incl. per-base capacity; scaled contract for signed and unsigned significands; scaled capacity for non-negative exponents (partial)',
+'C13': 'integers full incl. per-base capacity; every value incl. the most negative; scaled contract for signed and unsigned significands and every radix; scaled capacity for non-negative exponents (partial)',
 'C14': 'integers full; fractional clauses (never above, < 1 unit of the last digit + proven precision allowance, exact when it fits) for every significand type',
 'C15': 'Horner for any length, chunk bounds, width estimate, scanner/grammar link proved symbolically for every well-formed token (one harmless exclusion), run-time parse for ≥ 64-bit results, deduction incl. static_* for every constant, Precise descale value invariant',
 'C16': 'full under explicit fit guards; hash equality for every hash function',
